@@ -258,7 +258,22 @@ impl Gen {
                 4 => json!(["bin", "less", self.expr_ty(Ty::Long, d, w), self.expr_ty(Ty::Long, d, w)]),
                 5 => json!(["bin", "lessEq", self.expr_ty(Ty::Long, d, w), self.expr_ty(Ty::Long, d, w)]),
                 6 => {
-                    let rhs = if self.chance(50) { self.expr_ty(Ty::Ent, d, w) } else { self.expr_ty(Ty::Set, d, w) };
+                    let rhs = match self.rng.gen_range(0..4) {
+                        0 | 1 => self.expr_ty(Ty::Ent, d, w),
+                        2 => self.expr_ty(Ty::Set, d, w),
+                        _ => {
+                            // a set of entities, possibly with one stray element of another type anywhere
+                            let n = self.rng.gen_range(1..4);
+                            let mut items: Vec<J> = (0..n).map(|_| self.expr_ty(Ty::Ent, 0, w)).collect();
+                            if self.chance(50) {
+                                let t = *self.pick(&TYS);
+                                let pos = self.rng.gen_range(0..=items.len());
+                                let stray = self.expr_ty(t, 0, w);
+                                items.insert(pos, stray);
+                            }
+                            json!(["set", items])
+                        }
+                    };
                     json!(["bin", "in", self.expr_ty(Ty::Ent, d, w), rhs])
                 }
                 7 => {
@@ -294,7 +309,13 @@ impl Gen {
             Ty::Set => {
                 let n = self.rng.gen_range(0..4);
                 let et = *self.pick(&TYS);
-                let items: Vec<J> = (0..n).map(|_| self.expr_ty(et, d, w)).collect();
+                let mixed = self.chance(25);
+                let items: Vec<J> = (0..n)
+                    .map(|_| {
+                        let t = if mixed { *self.pick(&TYS) } else { et };
+                        self.expr_ty(t, d, w)
+                    })
+                    .collect();
                 json!(["set", items])
             }
             Ty::Rec => {
